@@ -12,11 +12,13 @@ handled and unhandled failures, cached and uncached cells, the depth limit.  His
 interleaving of top-level evaluations (hits and misses), value assignments, `clear_at`,
 `clear`, `clear_all` and `clear_obj`, from the empty model.
 
-What is *not* proved here and is checked only by the correspondence and by the
-call-recording oracle: that the predecessor set of an element is exactly the set of calls its
-formula made (the model adds an edge exactly when a call returns a value – `hitEdge`,
-`popEdge` – and removes them on rollback; the theorem relating this to a trace of the formula
-is future work).
+**Predecessors = the calls made** (`edges_are_exactly_the_calls`, regime `C02.WF`: additionally
+`NoCatch` and static scoping): in every state with certificates – hence every reachable state of the
+thirteen-operation language – a held computed element has a replayable trace of its formula, and
+the sources of the edges INTO it are exactly the recorded calls: the cached elements it (or an
+uncached callee on its behalf, at any nesting depth) called, and the object nodes of the uncached
+cells it went through.  For formulas that handle failures the statement is decided by the
+call-recording oracle of the check (a handled failure leaves no record: C02-caught-failure-untracked).
 -/
 namespace MxModel.C08
 open MxModel.Exec
@@ -393,6 +395,50 @@ theorem object_nodes_only_for_uncached_full (lt : Node → Node → Prop) (ho : 
     (C02.run (env0, {}) ops).1.cached c = false ∧ (C02.run (env0, {}) ops).1.alive c = true :=
   have hci := (C02.run_ci lt ho ops (env0, {}) hw0 (CI.empty env0 lt) hadm).1
   ⟨hci.alive.objs c h, hci.alive.nodes _ h⟩
+
+/-- **Reported dependencies are exactly the calls made**: for an element `n` holding a computed value
+there is a trace `tr` of its formula – the formula, fed the recorded answers, asks exactly the
+recorded questions and returns the held value (`Replay`); every recorded cached callee holds the
+recorded value now – such that the predecessors of `n` in the dependency graph are exactly the
+recorded callees: `a → n` is an edge iff `a` is a cached element recorded as called (by `n`'s formula
+or, flattened by the `idx` rule, by an uncached callee's formula inside it) or the object node of an
+uncached cells recorded as called. -/
+theorem edges_are_exactly_the_calls {env : Env} {lt : Node → Node → Prop} {s : St} (h : CI env lt s)
+    (n : Node) (v : Val) (hl : lookup s.data n = some v) (hin : n ∉ s.inputs) :
+    ∃ tr, Replay env tr (env.formula n) v ∧
+      (∀ m w, FEv.call m w ∈ flat n.1 tr → lookup s.data m = some w) ∧
+      ∀ a, (a, GNode.elem n) ∈ s.ge ↔
+        (∃ m w, a = .elem m ∧ FEv.call m w ∈ flat n.1 tr) ∨ (∃ m, a = .obj m.1 ∧ FEv.ucall m ∈ flat n.1 tr) := by
+  obtain ⟨tr, hc⟩ := h.certs n v hl hin
+  refine ⟨tr, hc.replay, fun m w hm => (hc.events _ hm).1, fun a => ⟨hc.just a, ?_⟩⟩
+  rintro (⟨m, w, rfl, hm⟩ | ⟨m, rfl, hm⟩)
+  · exact (hc.events _ hm).2.2
+  · exact hc.events _ hm
+
+/-- …in every reachable state of the full edit language; user inputs have no predecessors
+(`inputs_have_no_preds_full`). -/
+theorem reachable_edges_are_exactly_the_calls (lt : Node → Node → Prop) (ho : StrictOrder lt) (env0 : Env)
+    (hw0 : C02.WF env0 lt) (ops : List C02.Op) (hadm : C02.Admissible lt (env0, {}) ops) (n : Node) (v : Val)
+    (hl : lookup (C02.run (env0, {}) ops).2.data n = some v) (hin : n ∉ (C02.run (env0, {}) ops).2.inputs) :
+    ∃ tr, Replay (C02.run (env0, {}) ops).1 tr ((C02.run (env0, {}) ops).1.formula n) v ∧
+      (∀ m w, FEv.call m w ∈ flat n.1 tr → lookup (C02.run (env0, {}) ops).2.data m = some w) ∧
+      ∀ a, (a, GNode.elem n) ∈ (C02.run (env0, {}) ops).2.ge ↔
+        (∃ m w, a = .elem m ∧ FEv.call m w ∈ flat n.1 tr) ∨ (∃ m, a = .obj m.1 ∧ FEv.ucall m ∈ flat n.1 tr) :=
+  edges_are_exactly_the_calls (C02.run_ci lt ho ops (env0, {}) hw0 (CI.empty env0 lt) hadm).1 n v hl hin
+
+/-! Non-vacuity: after `c3()` in the program of C02, `c2(1)` – computed through the uncached `c1` – has
+the predecessors `c0(1)` (called by `c1` on its behalf) and the object node of `c1`; the theorem gives
+a trace of `c2`'s formula in which exactly these are the recorded calls. -/
+example : (C02.run (C02.xEnv, {}) [.eval (3, [])]).2.ge =
+    [(.elem (0, [.int 1]), .elem (2, [.int 1])), (.obj 1, .elem (2, [.int 1])),
+     (.elem (2, [.int 1]), .elem (3, []))] := by decide
+
+example : ∃ tr, Replay C02.xEnv tr (C02.xEnv.formula (2, [.int 1])) (.int 26) ∧
+    ∀ a, (a, GNode.elem (2, [.int 1])) ∈ (C02.run (C02.xEnv, {}) [.eval (3, [])]).2.ge ↔
+      (∃ m w, a = .elem m ∧ FEv.call m w ∈ flat 2 tr) ∨ (∃ m, a = .obj m.1 ∧ FEv.ucall m ∈ flat 2 tr) := by
+  obtain ⟨tr, h1, _, h3⟩ := reachable_edges_are_exactly_the_calls idLt idLt_strict C02.xEnv C02.xEnv_wf
+    [.eval (3, [])] ⟨C02.xEnv_wf, trivial⟩ (2, [.int 1]) (.int 26) (by decide) (by decide)
+  exact ⟨tr, h1, h3⟩
 
 /-! Non-vacuity: the history `C02.yOps` (evaluations, an assignment, the deletion and re-creation of a
 cells, in the four-cells / two-spaces program with an uncached cells) is admissible; its graph. -/
